@@ -19,6 +19,7 @@ func runC13(c *Ctx) {
 	c13SameAddress(c)
 	c13AliasTable(c)
 	c03URIDefaults(c)
+	c01ValueEffects(c)
 	c13KeepFlag(c)
 	checkPopOne(c, "pop-structure", routePop)
 }
